@@ -164,6 +164,40 @@ class SmtLibExecutionCache(object):
 # EOC SmtLibExecutionCache
 
 
+class QuotedSymbol(str):
+    """The content of a |quoted symbol| that would be another token without
+    its bars: a parenthesis, a literal, a keyword or a reserved word.
+
+    |(|, |5|, |#b01| and |let| are symbols: such a token is different from
+    the plain tokens the parser compares it with, and equal only to
+    another quoted symbol with the same content.
+    """
+    __slots__ = ()
+
+    def __eq__(self, other):
+        return isinstance(other, QuotedSymbol) and str.__eq__(self, other)
+
+    def __ne__(self, other):
+        return not self.__eq__(other)
+
+    def __hash__(self):
+        return hash(("|", str.__str__(self)))
+
+    @staticmethod
+    def needs_tag(content: str) -> bool:
+        """True if content, written without bars, is not a symbol."""
+        if content in QuotedSymbol.RESERVED or content == "":
+            return True
+        if content[0] in '()"#:' or content[0].isdigit() or ")" in content or "(" in content:
+            return True
+        if content[0] in "+-." and len(content) > 1 and content[1].isdigit():
+            # pySMT reads -5 and .5 as numbers
+            return True
+        return False
+
+    RESERVED = frozenset(["(", ")", "!", "_", "as", "exists", "forall", "let", "par", "match"])
+
+
 class Tokenizer(object):
     """Takes a file-like object and produces a stream of tokens following
     the LISP rules.
@@ -263,7 +297,11 @@ class Tokenizer(object):
                             if not c:
                                 raise PysmtSyntaxError("Expected '|'",
                                                        self.pos_info)
-                            yield "".join(ls)
+                            content = "".join(ls)
+                            if QuotedSymbol.needs_tag(content):
+                                yield QuotedSymbol(content)
+                            else:
+                                yield content
                             c = next(reader)
 
                         elif c == "\"":
@@ -685,7 +723,7 @@ class SmtLibParser(object):
 
     def _get_var(self, name: str, type_name: PySMTType) -> FNode:
         """Returns the PySMT variable corresponding to a declaration"""
-        return self.env.formula_manager.Symbol(name=name,
+        return self.env.formula_manager.Symbol(name=str(name),
                                                typename=type_name)
 
     def _get_quantified_var(self, name: str, type_name: PySMTType) -> FNode:
@@ -694,7 +732,7 @@ class SmtLibParser(object):
             return self._get_var(name, type_name)
         except PysmtTypeError:
             return self.env.formula_manager.FreshSymbol(typename=type_name,
-                                                        template=name.replace("%", "%%") + "%d")
+                                                        template=str(name).replace("%", "%%") + "%d")
 
     def atom(self, token: str, mgr: FormulaManager) -> FNode:
         """
@@ -702,6 +740,11 @@ class SmtLibParser(object):
         the token
         """
         res = self.cache.get(token)
+        if res is None and isinstance(token, QuotedSymbol):
+            # A quoted symbol is never a literal: an undeclared one is
+            # handled as the other undeclared symbols
+            res = mgr.String(str(token))
+            self.cache.bind(token, res)
         if res is None:
             if token.startswith("#"):
                 # it is a BitVector
@@ -872,7 +915,7 @@ class SmtLibParser(object):
             keyword = tk[1:]
             tk = tokens.consume()
             value = None
-            if tk.startswith(":") or tk == ")":
+            if (tk.startswith(":") and not isinstance(tk, QuotedSymbol)) or tk == ")":
                 # another annotation keyword instead of a value of the previous annotation
                 # add previous annotation with None value and continue to next iteration
                 self.cache.annotations.add(term, keyword, value)
@@ -889,7 +932,7 @@ class SmtLibParser(object):
                     buff.append(tk)
                 value = "".join(buff)
             else:
-                value = tk
+                value = str(tk)
             tk = tokens.consume()
             self.cache.annotations.add(term, keyword, value)
 
@@ -1058,11 +1101,20 @@ class SmtLibParser(object):
         with open_(script_fname) as script:
             return self.get_script(script)
 
-    def parse_atoms(self, tokens: Tokenizer, command: str, min_size: int, max_size: Optional[int]=None) -> List[Union[Any, str]]:
+    def parse_atoms(self, tokens: Tokenizer, command: str, min_size: int, max_size: Optional[int]=None, names: bool=False) -> List[Union[Any, str]]:
         """
         Parses a sequence of N atoms (min_size <= N <= max_size) consuming
-        the tokens
+        the tokens.
+
+        The atoms are returned as plain strings, unless they are names
+        that will be looked-up again (names=True).
         """
+        res = self._parse_atoms(tokens, command, min_size, max_size)
+        if not names:
+            res = [str(x) for x in res]
+        return res
+
+    def _parse_atoms(self, tokens: Tokenizer, command: str, min_size: int, max_size: Optional[int]=None) -> List[Union[Any, str]]:
         if max_size is None:
             max_size = min_size
 
@@ -1333,7 +1385,7 @@ class SmtLibParser(object):
             if curr_parse == ":weight" and term_weight is None:
                 term_weight = self.get_expression(tokens)
             elif curr_parse == ":id" and term_group_id is None:
-                term_group_id = self.parse_atom(tokens, "assert-soft")
+                term_group_id = str(self.parse_atom(tokens, "assert-soft"))
             else:
                 raise PysmtSyntaxError("Incorrect option in the 'assert-soft' command", tokens.pos_info)
             curr = tokens.consume()
@@ -1427,7 +1479,7 @@ class SmtLibParser(object):
             if token.startswith(":"):
                 options = True
                 if token == ":id":
-                    identifier = self.parse_atom(tokens, "maxmin/minmax")
+                    identifier = str(self.parse_atom(tokens, "maxmin/minmax"))
                     params.append((token, identifier))
                 elif token == ":signed":
                     signed = True
@@ -1459,7 +1511,7 @@ class SmtLibParser(object):
             tokens.add_extra_token(curr)
             curr_parse = self.parse_atom(tokens, current)
             if curr_parse == ":id":
-                id = self.parse_atom(tokens, "maximization/minimization")
+                id = str(self.parse_atom(tokens, "maximization/minimization"))
                 params.append((curr_parse, id))
             elif curr_parse == ":signed":
                 signed = True
@@ -1531,13 +1583,13 @@ class SmtLibParser(object):
         # Finish Parsing
         self.consume_closing(tokens, current)
         self.cache.define(var, formal, ebody)
-        return SmtLibCommand(current, [var, formal, rtype, ebody])
+        return SmtLibCommand(current, [str(var), formal, rtype, ebody])
 
     def _cmd_declare_sort(self, current: str, tokens: Tokenizer) -> SmtLibCommand:
         """(declare-sort <symbol> <numeral>)"""
-        (typename, arity) = self.parse_atoms(tokens, current, 2)
+        (typename, arity) = self.parse_atoms(tokens, current, 2, names=True)
         try:
-            type_ = self.env.type_manager.Type(typename, int(arity))
+            type_ = self.env.type_manager.Type(str(typename), int(arity))
         except ValueError:
             raise PysmtSyntaxError("Expected an integer as arity of type %s."%
                                    typename, tokens.pos_info)
@@ -1565,7 +1617,7 @@ class SmtLibParser(object):
             rtype = PartialType(name, definition)
         self.consume_closing(tokens, current)
         self.cache.define(name, [], rtype)
-        return SmtLibCommand(current, [name, [], rtype])
+        return SmtLibCommand(current, [str(name), [], rtype])
 
     def _cmd_get_assertions(self, current: str, tokens: Tokenizer) -> SmtLibCommand:
         """(get-assertions)"""
